@@ -21,7 +21,12 @@ MANIFEST = dict(
          "on earlier calls — is decided by the tie: a battery of constructions (trees, lists, head_content payloads, dependency lists, tagified "
          "trees, JSON-mode strings) is evaluated in fresh subprocesses under different PYTHONHASHSEED values, in forward / reverse / shuffled "
          "order with unrelated renderings interleaved, and every digest from every process must equal the digest of the MODEL's single answer "
-         "(SHA-1 itself is implemented in Lean and compared with hashlib).",
+         "(SHA-1 itself is implemented in Lean and compared with hashlib). The battery = hash-order probes (harness/c18_probes.py: one family per "
+         "place where a dict/set order or hash() could reach an observable — attribute dicts/kwargs, class/style helpers, css(), html_escape, "
+         "HTMLDocument keyword attributes and hoisting incl. equal and distinct head_content items in one document, as_dict/as_html_tags, "
+         "resolution, JSON serialisation, HTMLTextDocument extraction, JSX props — each with >= 4 distinct keys there) + a corpus of every op "
+         "kind of every other property (harness/mkbattery.py) + a random battery. C18_doc_head_content_once/_two_equal/_two_distinct carry "
+         "'once per document' from `resolve` to the document model (docTree).",
     design="DESIGN.md §6 C18",
     note="Runtime behaviour a Lean model cannot exhibit (hash seed, module-level caches, set iteration) is observed, not proved. SHA-1 collision "
          "resistance is assumed (injective H).",
@@ -31,6 +36,7 @@ PROP_FILES = ["HtmlVerif/Props/C18.lean", "HtmlVerif/Props/ConstsHead.lean"]
 WORKER = os.path.join(os.path.dirname(os.path.dirname(os.path.abspath(__file__))), "c18_worker.py")
 
 
+C18_OWN_OPS = {"head_content", "head_content_json"}
 NOISE_STRINGS = ["sm", "lg", "card", "btn-primary", "x"]
 
 
@@ -121,6 +127,62 @@ def battery(rng, n: int):
     return lines
 
 
+def _sha(s: str) -> str:
+    return hashlib.sha1(s.encode("utf-8", "surrogatepass")).hexdigest()
+
+
+def _decode_tok(tok: str) -> str:
+    from wire import ds
+    if tok == "-" or (tok and all(c in "0123456789abcdef." for c in tok) and any(c in "0123456789abcdef" for c in tok)):
+        try:
+            return ds(tok)
+        except Exception:  # noqa: BLE001
+            return tok
+    return tok
+
+
+def first_difference(model: str, other: str) -> str:
+    """human-readable first difference between two wire answers (token-wise; string tokens are decoded)"""
+    a, b = model.split(" "), other.split(" ")
+    for k in range(max(len(a), len(b))):
+        x, y = (a[k] if k < len(a) else "<end>"), (b[k] if k < len(b) else "<end>")
+        if x != y:
+            dx, dy = _decode_tok(x), _decode_tok(y)
+            j = next((i for i in range(min(len(dx), len(dy))) if dx[i] != dy[i]), min(len(dx), len(dy)))
+            lo = max(0, j - 70)
+            return (f"first difference in token {k} of the answer, at character {j}: the model / reference has "
+                    f"{dx[lo:j + 110]!r}, this process produced {dy[lo:j + 110]!r}")
+    return "answers are equal"
+
+
+def snippet_for(line: str) -> str:
+    """a public-API reproduction of the op line, from whichever property owns the op (a reading aid only)"""
+    op = line.split(" ", 1)[0]
+    tries = []
+    if op in ("document_render", "document_tree"):
+        from props import c11
+        tries.append(lambda: c11.snippet(line))
+    if op in ("ahist", "attr_render", "chist", "css", "consolidate", "norm_name"):
+        import ops_attrs
+        tries.append(lambda: ops_attrs.python_snippet(line))
+    if op.startswith("deps_") or op == "dep_init":
+        from props import c10
+        tries.append(lambda: c10.snippet(line))
+    if op in ("as_dict", "as_html_tags", "source_path_map"):
+        from props import c12
+        tries.append(lambda: c12.py_snippet(line))
+    import pretty
+    tries.append(lambda: pretty.describe(line))
+    for f in tries:
+        try:
+            r = f()
+            if r:
+                return r
+        except Exception:  # noqa: BLE001
+            continue
+    return f"# evaluate the op line with harness/ops.py: ops.run_line(<line>)  (op {op})"
+
+
 def run(tier: str) -> int:
     ck = core.Check(PID, tier, PROP_FILES)
     ck.prepare()
@@ -128,10 +190,24 @@ def run(tier: str) -> int:
     ck.rule = ("one case per construction of the battery; it is evaluated in every subprocess (hash seed x order); non-trivial = all of them "
                "(each digest of each process is compared with the model's); distinct by wire line")
     n = 240 if tier == "quick" else 600
-    lines = battery(rng, n)
-    # corpus first: a sample of every op kind the other properties' generators produce (harness/mkbattery.py), so the
+    # 1. hash-order probes: one family per place where a dict/set iteration order or hash() could reach an observable,
+    #    each line with >= 4 distinct keys at that place (harness/c18_probes.py; deterministic lines)
+    try:
+        import c18_probes
+        families = c18_probes.probes()
+    except Exception as e:  # noqa: BLE001
+        raise core.Infra(f"C18 hash-order probes could not be built: {type(e).__name__}: {e}")
+    origin: dict[str, str] = {}
+    lines = []
+    for fam, ls in families.items():
+        for l in ls:
+            origin.setdefault(l, "probe:" + fam)
+            lines.append(l)
+    ck.extra_cov["probe_families"] = {fam: len(ls) for fam, ls in families.items()}
+    # 2. corpus: a sample of every op kind the other properties' generators produce (harness/mkbattery.py), so the
     # whole public surface — attribute / class / css histories, child-list operations, display hook programs, JSX,
-    # JSON serialisation and extraction, dependency resolution — is evaluated across processes, not only rendering
+    # JSON serialisation and extraction, dependency resolution, whole documents, dependency URLs — is evaluated across
+    # processes, not only rendering
     cpath = os.path.join(core.VERIF, "corpus", "c18_battery.txt")
     corpus = [l.rstrip("\n") for l in open(cpath, encoding="utf-8")] if os.path.exists(cpath) else []
     if corpus and ck.driver is not None:
@@ -140,16 +216,30 @@ def run(tier: str) -> int:
         corpus = [l for l, a in zip(corpus, ans) if not a.startswith("bad-op")]
         ck.extra_cov["corpus_lines"] = len(corpus)
         ck.extra_cov["corpus_stale_lines_skipped"] = stale
-        lines = corpus + lines
+        ck.extra_cov["corpus_op_kinds"] = len({l.split(" ", 1)[0] for l in corpus})
+        need = {"document_render", "document_tree", "as_html_tags", "as_dict", "textdoc", "deps_list", "ser", "css", "chist", "ahist", "jsx_render"}
+        missing = sorted(need - {l.split(" ", 1)[0] for l in corpus})
+        if missing:
+            raise core.Infra(f"corpus/c18_battery.txt holds no {', '.join(missing)} lines: re-run harness/mkbattery.py")
+        for l in corpus:
+            origin.setdefault(l, "corpus")
+        lines += corpus
+    # 3. random battery of this run
+    for l in battery(rng, n):
+        origin.setdefault(l, "battery")
+        lines.append(l)
     # the in-process answer (also history dependent: this process has rendered many things before) and the model's
-    impl = core.impl_many(lines)
+    import contextlib
+    import io
+    with contextlib.redirect_stdout(io.StringIO()):      # a changed library may print (e.g. a display hook that echoes)
+        impl = core.impl_many(lines)
     for l, im in zip(lines, impl):
         ck.add(l, im, nontrivial=True, tag=l.split(" ", 1)[0])
     ck.correspond(holds=False)
     if ck.driver is None:
         return ck.finish()
     model = ck.driver.run(lines)
-    want = {str(i): hashlib.sha1(m.encode()).hexdigest() for i, m in enumerate(model)}
+    want = {str(i): _sha(m) for i, m in enumerate(model)}
     seeds = ["0", "1", "2", "random"] if tier == "quick" else ["0", "1", "2", "3", "7", "42", "123456", "4294967295"] + ["random"] * 8
     orders = ["forward", "reverse", "shuffle"] if tier == "quick" else ["forward", "reverse", "shuffle", "shuffle2", "evens-first", "noise-heavy"]
     noise = [l for l in battery(rng, 40)] + ["noise_strsub " + es(sx) for sx in NOISE_STRINGS] * 2
@@ -167,30 +257,126 @@ def run(tier: str) -> int:
             jobs.append((sd, od, idx))
     env0 = dict(os.environ)
     env0["VERIF_REPO"] = core.REPO
-    procs = []
-    for sd, od, idx in jobs:
+    in_process = {str(i): _sha(im) for i, im in enumerate(impl)}
+
+    def launch(sd, idx, with_noise):
         env = dict(env0)
         env["PYTHONHASHSEED"] = sd
         p = subprocess.Popen([sys.executable, WORKER], stdin=subprocess.PIPE, stdout=subprocess.PIPE, stderr=subprocess.PIPE, env=env, text=True)
-        procs.append((sd, od, p, json.dumps({"lines": lines, "order": idx, "noise": noise if od != "forward" else []})))
+        return p, json.dumps({"lines": lines, "order": idx, "noise": noise if with_noise else [], "want": want})
+
+    def read_report(p, payload, budget_s):
+        """-> (rows [(index, digest, answer|None)], done-record | None, stderr tail).  Never raises on what the worker did:
+        a worker that dies, hangs (killed after `budget_s`) or writes something else simply yields fewer rows."""
+        try:
+            out, err = p.communicate(payload, timeout=budget_s)
+        except subprocess.TimeoutExpired:
+            p.kill()
+            try:
+                out, err = p.communicate(timeout=30)
+            except Exception:  # noqa: BLE001
+                out, err = "", "killed after timeout"
+        except Exception as e:  # noqa: BLE001  (e.g. the worker exited before reading its input)
+            out, err = "", f"{type(e).__name__}: {e}"
+        rows, done = [], None
+        for ln in (out or "").split("\n"):
+            try:
+                r = json.loads(ln)
+            except ValueError:
+                continue
+            if isinstance(r, dict) and "i" in r and "d" in r:
+                rows.append((int(r["i"]), str(r["d"]), r.get("a")))
+            elif isinstance(r, dict) and (r.get("done") or "import_failed" in r):
+                done = r
+        return rows, done, (err or "")[-600:]
+
+    budget_s = 900 if tier == "quick" else 3000
+
+    def run_job(job):
+        """one (hash seed, order) pair, evaluated to the end whatever the library does: -> (rows, hash('a'), import error, restarts)"""
+        sd, od, idx = job
+        got: list = []
+        rest = list(idx)
+        nrestart = 0
+        for _ in range(25):
+            p, payload = launch(sd, rest, od != "forward")
+            rows, done, err = read_report(p, payload, budget_s)
+            got += rows
+            if done is not None and "import_failed" in done:
+                return got, None, done["import_failed"], nrestart
+            if done is not None:
+                return got, done.get("hash_of_a"), None, nrestart
+            # the interpreter died (or was killed) while evaluating the construction after the last reported one:
+            # that construction `crashed` in this process; resume after it in a fresh process with the same seed
+            rest = rest[len(rows):]
+            if not rest:
+                break
+            got.append((rest[0], _sha("err crashed-or-hung"), "err crashed-or-hung (the worker process died or was killed here: " + err[-200:] + ")"))
+            rest = rest[1:]
+            nrestart += 1
+            if not rest:
+                break
+        return got, None, None, nrestart
+
+    from concurrent.futures import ThreadPoolExecutor
+    with ThreadPoolExecutor(min(len(jobs), max(2, min(16, os.cpu_count() or 2)))) as ex:
+        results = list(ex.map(run_job, jobs))
     n_digests = 0
     hashes_seen = set()
-    for sd, od, p, payload in procs:
-        out, err = p.communicate(payload, timeout=1800)
-        if p.returncode != 0:
-            raise core.Infra(f"C18 worker failed (seed {sd}, order {od}): {err[-800:]}")
-        res = json.loads(out)
-        hashes_seen.add(res["hash_of_a"])
-        for k, dg in res["digests"].items():
+    differing: dict[int, list] = {}      # construction -> [(seed, order, digest, answer or None, hash('a') of that process)]
+    agreeing: dict[int, int] = {}
+    digests_of: dict[int, set] = {}      # construction -> every digest seen for it in any process (incl. this one)
+    restarts = 0
+    for (sd, od, idx), (got, ha, import_failed, nrestart) in zip(jobs, results):
+        restarts += nrestart
+        if import_failed:
+            ck.py_violation("", import_failed, f"the library could not be imported in a process with PYTHONHASHSEED={sd}",
+                            py=f"PYTHONHASHSEED={sd} python -c 'import htmltools'")
+        hashes_seen.add(ha)
+        for k, dg, ans in got:
             n_digests += 1
             ck.holds_checked += 1
-            if dg != want[k]:
-                ck.py_violation(lines[int(k)], f"digest {dg} in a process with PYTHONHASHSEED={sd}, evaluation order {od}",
-                                f"the same construction gives a different result in another process / after a different history "
-                                f"(model and reference digest {want[k]})",
-                                py=f"PYTHONHASHSEED={sd}; order={od}")
+            digests_of.setdefault(k, {in_process[str(k)]}).add(dg)
+            if dg != want[str(k)]:
+                differing.setdefault(k, []).append((sd, od, dg, ans, ha))
+            else:
+                agreeing[k] = agreeing.get(k, 0) + 1
+    ck.extra_cov["worker_restarts"] = restarts
+    # A construction that gives ONE answer everywhere (every subprocess and this process) which is not the model's is
+    # deterministic: the model/implementation correspondence is broken there (reported above by `correspond`), but no
+    # process disagrees with another.  A failing input of C18 is a construction with more than one answer.
+    # Exception: the head_content ops — there the model's answer IS this property's statement (name = prefix + digest of
+    # the rendered content only, C18_headContent_name / C18_name_iff_content), so any other name is a failing input.
+    uniform = sorted(k for k in differing if len(digests_of.get(k, ())) == 1 and lines[k].split(" ", 1)[0] not in C18_OWN_OPS)
+    ck.extra_cov["constructions_uniformly_different_from_model"] = len(uniform)
+    for k in uniform:
+        del differing[k]
+    # one failing input per construction (probes first — they name the place — and the shortest line first), with
+    # what each process produced
+    for k in sorted(differing, key=lambda k: (not origin.get(lines[k], "").startswith("probe:"), len(lines[k]), k)):
+        rows = differing[k]
+        line = lines[k]
+        opn = line.split(" ", 1)[0]
+        shown = next((r for r in rows if r[3] is not None), None)
+        per = "; ".join(f"PYTHONHASHSEED={sd} (hash('a')={ha}) order={od}: digest {dg[:12]}" for sd, od, dg, _, ha in rows[:12])
+        by_digest: dict[str, list] = {}
+        for sd, od, dg, _, ha in rows:
+            by_digest.setdefault(dg[:12], []).append(sd)
+        detail = (f"op `{opn}` ({origin.get(line, '?')}, construction #{k} of the battery): {len(rows)} of {len(jobs)} processes gave a result "
+                  f"different from the model's single answer (digest {want[str(k)][:12]}; {agreeing.get(k, 0)} processes agree with it); "
+                  f"{len(by_digest)} different wrong digests ({', '.join(d + ' x' + str(len(v)) for d, v in list(by_digest.items())[:6])}). "
+                  f"Per process: {per}" + (" …" if len(rows) > 12 else "") + ". "
+                  + (first_difference(model[k], shown[3]) + f" (process with PYTHONHASHSEED={shown[0]}, order {shown[1]})" if shown else
+                     "(full answers were kept for the first differing constructions of each process only)"))
+        seeds_bad = sorted({r[0] for r in rows if r[0] != "random"})
+        seeds_ok = [sd for sd in seeds if sd != "random" and sd not in seeds_bad]
+        py = (snippet_for(line) + "\n# run this in fresh interpreters started with different PYTHONHASHSEED values"
+              + (f" (differs from the reference under PYTHONHASHSEED={','.join(seeds_bad)}" + (f"; agrees under {','.join(seeds_ok)}" if seeds_ok else "") + ")" if seeds_bad else "")
+              + "\n# or: echo '<line>' through harness/c18_worker.py with {\"lines\": [line], \"order\": [0]}")
+        ck.py_fail.append(core.Failure("property", line=line, impl=(shown[3] if shown else rows[0][2]), model=model[k], detail=detail, py=py))
     ck.extra_cov.update(processes=len(jobs), hash_seeds=seeds, orders=orders, digests_compared=n_digests,
-                        distinct_str_hash_values_observed=len(hashes_seen), extra_evaluations=n_digests)
+                        distinct_str_hash_values_observed=len(hashes_seen), extra_evaluations=n_digests,
+                        constructions_by_origin={o: sum(1 for l in set(lines) if origin.get(l) == o) for o in sorted(set(origin.values()))})
     ck.exhaustive_scopes.append({"scope": f"{len(lines)} constructions x {len(seeds)} hash seeds x {len(orders)} evaluation orders, every digest compared with the model's answer",
                                  "exhaustive": False})
     return ck.finish()
